@@ -75,7 +75,10 @@ def run_lock_method(ctx, obj, name, args):
     fn, ci = mod.find('%s.%s' % (CLS, name))
     if fn is None:
         raise Undecided('%s.%s not found' % (CLS, name))
-    I = Interp(ctx, inline=set())
+    # the replica's own clock: whatever it reads is unrelated to the timestamp the command carries (replicas apply a command at different times) -
+    # a replicated method whose effect depends on it is not replica-deterministic and cannot equal the spec function
+    I = Interp(ctx, inline=set(), externals={'time.time': lambda I_, a, k: FreshReal('replicaLocalClock'),
+                                             'monotonicTime': lambda I_, a, k: FreshReal('replicaLocalClock')})
     try:
         return 'ok', I.call_funcdef(fn, mod, CLS, obj, list(args), {}, None, '%s.%s' % (CLS, name)), I
     except PyExc as e:
